@@ -16,4 +16,7 @@ def units(tier):
     # of the current values (= a fresh Sampler's, which the units above compare with the independent reference)
     u.append(dict(kind="func", mechanism="bounded runtime contract (C)", name="bounded:parameter-update-histories", module="vf.tasks.t_history", func="unit",
                   args=dict(kind="sampler", only=["param", "param-tiny", "edit-circuit", "backend", "loss"])))
+    # a Sampler created without a source / detector is ideal whatever was done to another such Sampler before (no shared default objects)
+    u.append(dict(kind="func", mechanism="bounded runtime contract (C)", name="bounded:default-objects-not-shared", module="vf.tasks.t_history", func="unit_bystanders", args={}))
+    u.append(dict(kind="func", mechanism="bounded runtime contract (C), native", name="bounded:backend-names", module="vf.tasks.t_fock", func="unit_backend_names", args={}))
     return u
